@@ -1,6 +1,7 @@
 package checks
 
 import (
+	"time"
 	"context"
 	"errors"
 	"fmt"
@@ -386,8 +387,16 @@ func runC06(args []string) int {
 	var mu sync.Mutex
 	execs, spurious := 0, 0
 	outcomes := map[string]struct{}{}
+	// the thorough plans are large: an internal budget ends the enumeration with exhaustive=false
+	// and the list of plans completed, never with a verdict
+	deadline := time.Now().Add(30 * time.Minute)
+	truncated := false
+	var plansDone []string
 	for pass, badger := range []bool{true, false} {
 		for _, p := range plans {
+			if truncated {
+				break
+			}
 			var combos [][][]c06op
 			var rec func(i int, cur [][]c06op)
 			rec = func(i int, cur [][]c06op) {
@@ -446,6 +455,10 @@ func runC06(args []string) int {
 				for i := range c {
 					lens[i] = len(c[i])
 				}
+				if time.Now().After(deadline) {
+					truncated = true
+					break
+				}
 				for _, sched := range c06Interleavings(lens) {
 					style := n % 2
 					if pass == 1 && n%3 != 0 && tier != "thorough" {
@@ -467,6 +480,9 @@ func runC06(args []string) int {
 			}
 			close(jobs)
 			wg.Wait()
+			if !truncated {
+				plansDone = append(plansDone, fmt.Sprintf("%s on %s", p.name, map[bool]string{true: "badger", false: "vkv"}[badger]))
+			}
 		}
 	}
 	r.Coverage["evaluations"] = execs
@@ -474,7 +490,8 @@ func runC06(args []string) int {
 	r.Coverage["rule"] = "one evaluation = one complete interleaving of the steps (begin, operations, commit/discard) of 2-3 explicit transactions, executed on the real database with a non-transactional read after every step, in lock step with a snapshot-isolation model; distinct_nontrivial = distinct (scripts, final committed state)"
 	r.Coverage["spurious_conflicts"] = spurious
 	r.Coverage["stores"] = []string{"badger in-memory (deciding pass)", "vkv (second pass)"}
-	r.Coverage["exhaustive"] = true
+	r.Coverage["exhaustive"] = !truncated
+	r.Coverage["plans_completed"] = plansDone
 	r.Assumptions = []string{"a conflict error on a commit that the model does not require is not a violation (counted as spurious)", "isolation is delegated to the key-value store: the deciding pass runs on badger in-memory"}
 	return r.Finish()
 }
